@@ -166,3 +166,41 @@ def standin_typedfuzz(prop, tier, seed, scratch, root):
                               'where': 'mpd_client/src/responses', 'rendered': json.dumps(j)[:3000], 'input': {'kind': j['kind'], 'reply_hex': j['reply_hex']},
                               'replayed': rep, 'replay_bin': 'typed_case', 'replay_args': args})
     return row
+
+
+def standin_typeddiff(prop, tier, seed, scratch, root):
+    """abstract reply -> MPD wire text -> real parser -> real typed decoder -> compared field by field with the abstract reply"""
+    import replay as RP, json
+    from concurrent.futures import ThreadPoolExecutor
+    per = 4000 if tier != 'thorough' else 150000
+    workers = 8
+    base = 1 + max(seed, 0) * 10_000_000
+    row = {'function': 'Command::response of status, stats, count (plain/grouped), list (plain, 1 and 2 grouping levels), listplaylists, sticker get/list/find, channels, readmessages, tagtypes, replay_gain_status, update, '
+                       'playlistinfo, currentsong, listallinfo, find, listplaylistinfo (responses/*.rs, commands/definitions.rs)',
+           'engine': 'native differential run: abstract reply generated, encoded as MPD writes it, decoded by the real code, compared with the abstract reply (replay/src/bin/typed_diff.rs)',
+           'label': 'bounded', 'cases': per * workers * 8, 'violations': []}
+    RP.build(scratch)
+    def one(k):
+        return RP.run_bin('typed_diff', scratch, ['search', str(base + k * per), str(per)], timeout=3000)
+    with ThreadPoolExecutor(workers) as ex:
+        rs = list(ex.map(one, range(workers)))
+    if not all(r.get('ran') for r in rs):
+        row['undecided'] = next(r for r in rs if not r.get('ran')).get('reason', 'did not run'); return row
+    row['bound'] = ('%d seeds x 8 reply kinds (seeds %d..%d): every optional-field subset and field order permutation of status/stats, boundary numbers, all enum spellings, legacy time vs duration, '
+                    'sticker values containing "=", grouped output with repeated and changing group keys, listings of <= 4 songs with <= 4 tag lines each, any attribute order, interleaved directory / playlist entries, '
+                    'Time vs duration in either order; built WITHOUT the chrono feature' % (per * workers, base, base + per * workers - 1))
+    bad = [r for r in rs if r['fails']]
+    if not bad:
+        row['result'] = 'agree'; row['distinct_nontrivial'] = per * workers * 8
+        return row
+    try:
+        j = json.loads(bad[0].get('full_output', bad[0]['output']).strip().split('\n')[-1])
+    except Exception:
+        row['undecided'] = 'output unreadable: ' + bad[0].get('output', '')[-300:] + bad[0].get('stderr', ''); return row
+    row['result'] = 'DEVIATION'; row['deviation'] = j
+    args = ['case', j['kind'], str(j['seed'])]
+    rep = RP.run_bin('typed_diff', scratch, args); rep.pop('full_output', None)
+    row['violations'].append({'props': j.get('props', []), 'ob': 'typed.diff', 'fn': 'typed decoder of ' + j['kind'], 'message': 'the decoded value differs from what the server sent: ' + j.get('why', ''),
+                              'where': 'mpd_client/src/responses', 'rendered': json.dumps(j)[:3000], 'input': {'kind': j['kind'], 'seed': j['seed'], 'reply': j.get('reply')},
+                              'replayed': rep, 'replay_bin': 'typed_diff', 'replay_args': args})
+    return row
